@@ -1,8 +1,15 @@
 (* C03 — every value read equals what the encoding spec says the bytes denote.
-   Statements only; each is closed by [exact] of a lemma proved in Spec/SpecProofs.v.
+   Statements only; each is closed by [exact] of a lemma proved in Spec/SpecProofs.v,
+   Spec/SpecGlue.v, Spec/SpecExamples.v or Spec/WalkProofs.v.
    Go side: Core/Arith.v (L0 extractors), Core/Reader.v (readPtr and the accessors, all repair
-   switches on = the code now in ../repo); specification side: Spec/Spec.v. *)
-From CV Require Import Core.Arith Core.Reader Core.ReadOps Spec.Spec Spec.SpecProofs Spec.SpecExamples Spec.WalkProofs.
+   switches on = the code now in ../repo); specification side: Spec/Spec.v.  The specification
+   decoder is used in its LENIENT mode ([spec_resolve false]: a composite list's tag need not
+   account for exactly the words its list pointer announces -- what the Go reader accepts);
+   the strict mode and its relation to the lenient one are in Properties_C05_specvalid.v.
+   Premises common to the accessor theorems ([sview_ok], [list_ok]) and to walk_eq_spec: bytes
+   0..255 and every segment at most 2^32-8 bytes ([seg_small]); soundness of readPtr needs
+   only bytes 0..255. *)
+From CV Require Import Core.Arith Core.Reader Core.ReadOps Spec.Spec Spec.SpecProofs Spec.SpecGlue Spec.SpecExamples Spec.WalkProofs.
 Open Scope Z_scope.
 
 (* every 64-bit pointer word: each field extractor of rawpointer.go is the spec's bit field *)
@@ -162,29 +169,57 @@ Theorem C03_example :
   spec_decode_root false 6 64 8 ex_msg = ex_tree /\
   (let '(r, rl) := root ex_cfg ex_msg 1000000 in walk ex_cfg ex_fx ex_msg 64 8 6 rl r) = (ex_tree, 1000000 - 59).
 Proof.
-  split; [exact ex_bytes_ok|]. split; [exact ex_segs_small|]. split; [exact ex_root_far|].
-  split; [exact (proj1 ex_double_far)|]. split; [exact (proj1 ex_spec_tree)|]. exact ex_walk_tree.
+  exact (conj ex_bytes_ok (conj ex_segs_small (conj ex_root_far (conj (proj1 ex_double_far)
+        (conj (proj1 ex_spec_tree) ex_walk_tree))))).
 Qed.
 Print Assumptions C03_example.
 
+(* glue: an element of a well-formed list read as a struct is a well-formed struct view, so the
+   struct accessor theorems apply to what C03_list_struct returns (both upgrade directions) *)
+Theorem C03_list_elem_sview_ok : forall m l i v, list_ok m l -> l_struct l i = Some v -> sview_ok m v.
+Proof. exact list_elem_sview_ok. Qed.
+Print Assumptions C03_list_elem_sview_ok.
+
 (* [T2] whole trees: for every message, caps and fuel, when limits suffice (depth limit above
-   the fuel, budget at least the specification's traversal cost), the generic walker over the
-   Go-faithful accessors returns exactly spec_decode's tree and consumes exactly its cost *)
+   the fuel, budget at least the specification's traversal cost) and every list MET BY THE
+   DECODER under these caps has fewer than 2^29 elements ([vrepr]: a condition on the words the
+   decoder reads as pointers only -- the pointer itself, the pointer slots of the object it
+   resolves to, and so on; data words and unreachable words are unconstrained; the reader
+   refuses larger counts, a known finding), the generic walker over the Go-faithful accessors
+   returns exactly the lenient spec_decode's tree and consumes exactly its cost *)
 Theorem C03_walk_eq_spec : forall (c : config) (m : list (list Z)) (dcap pcap : Z),
   cfg_strict c = true -> bytes_ok m -> segs_small m ->
-  (forall sid wa t, spec_resolve false m sid wa = Some t -> list_repr t) ->
   forall fuel rl sid s wa depth,
   seg_at m sid = Some s -> in_words s wa 1 = true ->
   Z.of_nat fuel < depth < 18446744073709551616 -> 0 <= rl ->
   spec_cost false fuel dcap pcap m sid wa <= rl ->
+  vrepr fuel pcap m sid wa ->
   (let '(r, rl1) := readPtr true m rl sid s (8 * wa) depth in
    walk c (mkFix true true true) m dcap pcap fuel rl1 r)
   = (spec_decode false fuel dcap pcap m sid wa, rl - spec_cost false fuel dcap pcap m sid wa).
 Proof. exact walk_eq_spec. Qed.
 Print Assumptions C03_walk_eq_spec.
 
-Theorem C03_walk_eq_spec_hyps_satisfiable :
-  bytes_ok zero_msg /\ segs_small zero_msg /\
-  (forall sid wa t, spec_resolve false zero_msg sid wa = Some t -> list_repr t).
-Proof. exact walk_eq_spec_hyps_satisfiable. Qed.
-Print Assumptions C03_walk_eq_spec_hyps_satisfiable.
+(* [vrepr] is decidable on a concrete message *)
+Theorem C03_vrepr_check_sound : forall fuel pcap m sid wa,
+  vrepr_check fuel pcap m sid wa = true -> vrepr fuel pcap m sid wa.
+Proof. exact vrepr_check_sound. Qed.
+Print Assumptions C03_vrepr_check_sound.
+
+(* non-vacuity of walk_eq_spec on a non-trivial message: three segments, root = far pointer,
+   a double-far pointer to a composite list, a capability, a text, and DATA words that look
+   like hostile pointers (a composite list pointer followed by a tag announcing 2^29 elements):
+   all hypotheses hold, the theorem applies, and the tree is the expected one; a condition over
+   ALL words of the message (an earlier formulation) would be false on this message *)
+Theorem C03_walk_eq_spec_applies :
+  bytes_ok ex_msg2 /\ segs_small ex_msg2 /\ vrepr 6 8 ex_msg2 0 0 /\
+  ((let '(r, rl1) := readPtr true ex_msg2 1000000 0 (nth 0 ex_msg2 []) (8 * 0) 64 in
+    walk ex_cfg (mkFix true true true) ex_msg2 64 8 6 rl1 r)
+   = (spec_decode false 6 64 8 ex_msg2 0 0, 1000000 - spec_cost false 6 64 8 ex_msg2 0 0)
+   /\ spec_decode false 6 64 8 ex_msg2 0 0 = ex_tree2) /\
+  ~ (forall sid wa t, spec_resolve false ex_msg2 sid wa = Some t -> list_repr t).
+Proof.
+  exact (conj ex2_bytes_ok (conj ex2_segs_small (conj ex2_vrepr
+        (conj ex2_walk_eq_spec_applies ex2_all_words_condition_fails)))).
+Qed.
+Print Assumptions C03_walk_eq_spec_applies.
